@@ -13,6 +13,8 @@ import (
 
 func init() {
 	register(&PropertyCheck{ID: "C06", Level: "proof", Run: checkC06, Canaries: []Canary{
+		{Name: "header-stage-refuses-a-ping-with-a-body", Rule: "R6.6", Where: "ReadPacket on PingReq", Edits: []Edit{{"packet.go", "\tm, err := f.remainingLen.ReadFrom(r)\n\treturn n + m, err", "\tm, err := f.remainingLen.ReadFrom(r)\n\tif err == nil && byte(f.fixed)&0xf0 == PINGREQ && f.remainingLen != 0 {\n\t\treturn n + m, ErrMissingData\n\t}\n\treturn n + m, err"}}},
+		{Name: "read-after-the-body", Rule: "R6.6", Where: "ReadPacket on Disconnect", Edits: []Edit{{"packet.go", "\tif err := p.UnmarshalBinary(data); err != nil {", "\tif byte(f.fixed)&0xf0 == DISCONNECT {\n\t\tvar one [1]byte\n\t\tif n, _ := io.ReadFull(r, one[:]); n > 0 {\n\t\t\treturn nil, ErrMissingData\n\t\t}\n\t}\n\tif err := p.UnmarshalBinary(data); err != nil {"}}},
 		{Name: "extra-byte-read-after-the-length", Rule: "R6.6", Where: "ReadPacket on", Edits: []Edit{{"packet.go", "\tm, err := f.remainingLen.ReadFrom(r)\n\treturn n + m, err", "\tm, err := f.remainingLen.ReadFrom(r)\n\tif err == nil && f.remainingLen > 2 {\n\t\tvar pad bits\n\t\tpad.ReadFrom(r)\n\t}\n\treturn n + m, err"}}},
 		{Name: "size-refusal-between-header-and-body-stage", Rule: "R6.4", Where: "ReadPacket#between-stages", Edits: []Edit{{"packet.go", "\tif _, err := fh.ReadFrom(r); err != nil {\n\t\treturn nil, fmt.Errorf(\"ReadPacket: %w\", err)\n\t}\n", "\tn, err := fh.ReadFrom(r)\n\tif err != nil {\n\t\treturn nil, fmt.Errorf(\"ReadPacket: %w\", err)\n\t}\n\tif n > 4 {\n\t\treturn nil, fmt.Errorf(\"ReadPacket: packet too large\")\n\t}\n"}}},
 		{Name: "body-plus-one", Rule: "R6.2", Where: "ReadRemaining", Edits: []Edit{{"packet.go", "make([]byte, int(f.remainingLen))", "make([]byte, int(f.remainingLen)+1)"}}},
@@ -312,11 +314,12 @@ func checkLengthLoop(p *Prog, c *Check, u ReaderUse, lp *Loop) {
 	}
 	errIdx := errorResultIndex(fn.Signature)
 	okAll := true
+	lpr := NewProver(p, fn)
 	for _, e := range lp.ExitEdges() {
-		// does this exit reach a successful return?
+		// does this exit reach a successful return?  (a return whose error is not provably non-nil may be one)
 		succ := false
 		for _, r := range returnsReachable(e.to) {
-			if errIdx < 0 || isNilConst(r.Results[errIdx]) {
+			if errIdx < 0 || isNilConst(r.Results[errIdx]) || !lpr.NonNil(r.Results[errIdx], r.Block(), 0) {
 				succ = true
 			}
 		}
@@ -395,6 +398,32 @@ func checkFrameConsumption(p *Prog, c *Check) {
 					unk = where + "cannot evaluate ReadPacket: " + r.Why
 				case r.Read != r.Frame:
 					bad = where + fmt.Sprintf("ReadPacket takes %d byte(s) from the stream: what follows the frame is consumed, or part of the frame is left for the next call", r.Read)
+				case r.OverRead > 0:
+					bad = where + fmt.Sprintf("ReadPacket asks the stream for %d more byte(s) after it has read the frame: bytes of the next frame are touched", r.OverRead)
+				}
+			}
+		}
+		// a frame of this type whose body is not what the type's layout expects (three arbitrary bytes, also for
+		// the types that have no body at all): rejected or not, the frame is taken from the stream as a whole
+		{
+			header := sv{k: 'i', i: codeOf[tn] | specReservedBits[tn]}
+			garbage := []wireToken{{"raw", 3, sv{k: 's', i: 3, addr: "spec:payload"}, "three arbitrary bytes"}}
+			r := p.decoderReplay(tn, header, garbage, 3, base)
+			n++
+			nt++
+			where := fmt.Sprintf("frame with a body of three arbitrary bytes (%d bytes): ", r.Frame)
+			switch {
+			case r.Why != "":
+				if unk == "" {
+					unk = where + "cannot evaluate ReadPacket: " + r.Why
+				}
+			case r.Read != r.Frame:
+				if bad == "" {
+					bad = where + fmt.Sprintf("ReadPacket takes %d byte(s) from the stream: the rest of the frame is left for the next call, which reads it as a header", r.Read)
+				}
+			case r.OverRead > 0:
+				if bad == "" {
+					bad = where + fmt.Sprintf("ReadPacket asks the stream for %d more byte(s) after it has read the frame", r.OverRead)
 				}
 			}
 		}
